@@ -146,6 +146,9 @@ func (s *Sim) setupEnv() {
 	var sInt grpc.StreamServerInterceptor
 	carrierInts := func(carrier string) {
 		uInt, sInt = nil, nil
+		if cfg.TIntOnly != "" && cfg.TIntOnly != carrier {
+			return
+		}
 		if cfg.TUnaryInt {
 			uInt = s.serverUnaryInt("T@" + carrier)
 		}
